@@ -227,6 +227,12 @@ def inline_temporaries(fn: ast.AST, new_names: Set[str]) -> int:
                     if not loads or any(id(x) not in later for x in loads):
                         ok = False
                         break
+                    # a fresh container that is used more than once (or mutated) has an
+                    # identity: `acc = []; acc.append(a); f(acc)` is not `[].append(a); f([])`
+                    if isinstance(env[nm], (ast.List, ast.Dict, ast.Set, ast.ListComp,
+                                            ast.DictComp, ast.SetComp)) and len(loads) > 1:
+                        ok = False
+                        break
                 if not ok:
                     continue
                 # names of the definition that are rebound later would change its meaning
@@ -557,25 +563,37 @@ def fold_flag_tests(fn: ast.AST) -> int:
     done = 0
 
     def leaf_blocks(st: ast.stmt, facts: List[Tuple[str, bool]]):
-        """(block, facts) for every block in which control leaves `st` at its end"""
+        """(block whose last statement decides, block to extend, facts) for every way in which
+        control leaves `st` at its end.  What is appended behind the body of a `try` goes into
+        its `else` part: it must not come under the handlers."""
         if isinstance(st, ast.If):
             t = ast.unparse(st.test)
             for br, pol in ((st.body, True), (st.orelse, False)):
                 f2 = facts + [(t, pol)]
                 if not br:
-                    yield None, f2  # empty else: falls through without assignment
+                    yield None, None, f2  # empty else: falls through without assignment
                 elif isinstance(br[-1], (ast.If, ast.Try)):
                     yield from leaf_blocks(br[-1], f2)
                 else:
-                    yield br, f2
+                    yield br, br, f2
         elif isinstance(st, ast.Try) and not st.finalbody:
-            for br in [h.body for h in st.handlers] + [st.orelse or st.body]:
+            for h in st.handlers:
+                br = h.body
                 if not br:
-                    yield None, facts
+                    yield None, None, facts
                 elif isinstance(br[-1], (ast.If, ast.Try)):
                     yield from leaf_blocks(br[-1], facts)
                 else:
-                    yield br, facts
+                    yield br, br, facts
+            br = st.orelse or st.body
+            if not br:
+                yield None, None, facts
+            elif isinstance(br[-1], (ast.If, ast.Try)) and st.orelse:
+                yield from leaf_blocks(br[-1], facts)
+            elif isinstance(br[-1], (ast.If, ast.Try)):
+                yield None, None, facts  # nested statement at the end of a try body: leave it
+            else:
+                yield br, st.orelse, facts  # st.orelse is extended in place (created empty)
 
     def decide(test: ast.AST, v: str, last: Optional[ast.stmt],
                facts: List[Tuple[str, bool]]) -> Optional[bool]:
@@ -664,21 +682,21 @@ def fold_flag_tests(fn: ast.AST) -> int:
                 continue
             v = next(iter(names))
             leaves = list(leaf_blocks(a, []))
-            if not leaves or any(lb is None for lb, _f in leaves):
+            if not leaves or any(lb is None for lb, _x, _f in leaves):
                 i += 1
                 continue
-            decisions = [decide(b.test, v, lb[-1] if lb else None, f_) for lb, f_ in leaves]
+            decisions = [decide(b.test, v, lb[-1] if lb else None, f_) for lb, _x, f_ in leaves]
             if not any(d is not None for d in decisions):
                 i += 1
                 continue
             # leaves that end in return / raise / continue / break never reach b
-            for (lb, _f), d in zip(leaves, decisions):
+            for (lb, ext, _f), d in zip(leaves, decisions):
                 if isinstance(lb[-1], (ast.Return, ast.Raise, ast.Continue, ast.Break)):
                     continue
                 if d is None:
-                    lb.append(copy.deepcopy(b))
+                    ext.append(copy.deepcopy(b))
                 else:
-                    lb.extend(copy.deepcopy(b.body if d else b.orelse))
+                    ext.extend(copy.deepcopy(b.body if d else b.orelse))
             del block[i + 1]
             done += 1
         # (no increment: the merged statement may be followed by another flag test)
@@ -1887,8 +1905,81 @@ def call_name_(c: ast.AST) -> str:
     return f.attr if isinstance(f, ast.Attribute) else (f.id if isinstance(f, ast.Name) else "")
 
 
+def _decomprehend(fn: ast.AST, helpers, cls, counter: List[int]) -> int:
+    """`v = [x for x in [helper(y) for y in L] if c(x)]` with a statement-bodied NEW helper inside:
+    a comprehension cannot take statements, so it is written as the loop it abbreviates
+    (`v = []; for y in L: x = helper(y); if c(x): v.append(x)`), nested comprehensions fused."""
+    n = 0
+
+    def has_proc_call(e: ast.AST) -> bool:
+        for x in ast.walk(e):
+            if isinstance(x, ast.Call):
+                h, _r = _helper_of_call(x, helpers, cls)
+                if h is not None and h.proc and h.expr is None:
+                    return True
+        return False
+    for block in list(_blocks(fn)):
+        i = 0
+        while i < len(block):
+            st = block[i]
+            tgt = None
+            if isinstance(st, ast.Assign) and len(st.targets) == 1 and isinstance(
+                    st.targets[0], ast.Name):
+                tgt = st.targets[0].id
+            elif isinstance(st, ast.AnnAssign) and isinstance(st.target, ast.Name) and \
+                    st.value is not None:
+                tgt = st.target.id
+            val = getattr(st, "value", None)
+            if tgt is None or not isinstance(val, ast.ListComp) or len(val.generators) != 1 or \
+                    not has_proc_call(val):
+                i += 1
+                continue
+            g = val.generators[0]
+            if g.is_async or not isinstance(g.target, ast.Name):
+                i += 1
+                continue
+            body: List[ast.stmt]
+            app = ast.Expr(value=ast.Call(func=ast.Attribute(
+                value=ast.Name(id=tgt, ctx=ast.Load()), attr="append", ctx=ast.Load()),
+                args=[val.elt], keywords=[]))
+            inner: List[ast.stmt] = [app]
+            for c in reversed(g.ifs):
+                inner = [ast.If(test=c, body=inner, orelse=[])]
+            it = g.iter
+            if isinstance(it, ast.ListComp) and len(it.generators) == 1 and not \
+                    it.generators[0].ifs and isinstance(it.generators[0].target, ast.Name):
+                # fuse: for y in L: x = E(y); <inner>
+                g2 = it.generators[0]
+                loop = ast.For(target=ast.Name(id=g2.target.id + "_c", ctx=ast.Store())
+                               if g2.target.id == g.target.id else g2.target,
+                               iter=g2.iter, body=[], orelse=[])
+                elt2 = it.elt
+                if g2.target.id == g.target.id:
+                    elt2 = _SubstNames({g2.target.id: ast.Name(id=g2.target.id + "_c",
+                                                               ctx=ast.Load())}).visit(
+                        copy.deepcopy(it.elt))
+                loop.body = [ast.Assign(targets=[ast.Name(id=g.target.id, ctx=ast.Store())],
+                                        value=elt2)] + inner
+            else:
+                loop = ast.For(target=g.target, iter=it, body=inner, orelse=[])
+            init = ast.Assign(targets=[ast.Name(id=tgt, ctx=ast.Store())],
+                              value=ast.List(elts=[], ctx=ast.Load()))
+            new = [init, loop]
+            for s_ in new:
+                ast.copy_location(s_, st)
+                for x in ast.walk(s_):
+                    if not hasattr(x, "lineno"):
+                        ast.copy_location(x, st)
+            ast.fix_missing_locations(loop)
+            block[i:i + 1] = new
+            n += 1
+            i += 2
+    return n
+
+
 def _inline_proc_calls(fn: ast.AST, helpers, cls, counter: List[int]) -> int:
     n = _hoist_test_calls(fn, helpers, cls, counter)
+    n += _decomprehend(fn, helpers, cls, counter)
     # names the caller already uses: a local of an inlined helper keeps its own name unless it
     # clashes with one of these
     caller_names: Set[str] = {x.id for x in _walk_scope(fn) if isinstance(x, ast.Name)}
